@@ -793,6 +793,19 @@ class Program:
                 return b
         return None
 
+    def field_by_type(self, adt_name, ty, default=None, nth=None):
+        """name of the field of struct `adt_name` whose type (generic arguments kept, module paths stripped) equals `ty`; private fields are
+        bound by their type where that is unique, so that a rename does not lose the anchor. `nth` selects among several in declaration
+        order; otherwise `default` is returned when the type is not unique."""
+        try:
+            a = self.adt(adt_name)
+        except AnchorError:
+            return default
+        hits = [f["name"] for f in a["variants"][0]["fields"] if strip_mods(f["ty"]) == ty]
+        if nth is not None and len(hits) > nth:
+            return hits[nth]
+        return hits[0] if len(hits) == 1 else default
+
     def adt(self, name, crate=None):
         out = []
         for (c, p), a in self.adts.items():
